@@ -26,6 +26,7 @@ import (
 	sdkmodule "github.com/cosmos/cosmos-sdk/types/module"
 	authkeeper "github.com/cosmos/cosmos-sdk/x/auth/keeper"
 	authtypes "github.com/cosmos/cosmos-sdk/x/auth/types"
+	vestingtypes "github.com/cosmos/cosmos-sdk/x/auth/vesting/types"
 	bankkeeper "github.com/cosmos/cosmos-sdk/x/bank/keeper"
 	banktypes "github.com/cosmos/cosmos-sdk/x/bank/types"
 	govtypes "github.com/cosmos/cosmos-sdk/x/gov/types"
@@ -163,6 +164,7 @@ func New(db dbm.DB, opts Options) *Chain {
 	cryptocodec.RegisterInterfaces(c.Registry)
 	authtypes.RegisterInterfaces(c.Registry)
 	banktypes.RegisterInterfaces(c.Registry)
+	vestingtypes.RegisterInterfaces(c.Registry)
 
 	authority := Authority()
 	c.AK = authkeeper.NewAccountKeeper(c.Cdc, c.AuthKey, authtypes.ProtoBaseAccount, MaccPerms, "regen", authority.String())
@@ -233,6 +235,7 @@ type Genesis struct {
 	Auth     json.RawMessage // nil = default
 	Bank     json.RawMessage // nil = default + Balances
 	Balances []Balance       // minted through the mint module account
+	Locked   []Balance       // accounts turned into permanently locked vesting accounts (part of their balance unspendable)
 }
 
 type Balance struct {
@@ -273,6 +276,13 @@ func (c *Chain) InitGenesis(g Genesis) (err error) {
 		if err := c.BK.SendCoinsFromModuleToAccount(ctx, minttypes.ModuleName, b.Addr, b.Coins); err != nil {
 			return err
 		}
+	}
+	for _, l := range g.Locked {
+		ba, ok := c.AK.GetAccount(ctx, l.Addr).(*authtypes.BaseAccount)
+		if !ok {
+			return fmt.Errorf("locked account %s is not a base account", l.Addr)
+		}
+		c.AK.SetAccount(ctx, vestingtypes.NewPermanentLockedAccount(ba, l.Coins))
 	}
 	eco := g.Eco
 	if eco == nil {
